@@ -33,6 +33,8 @@
 #include "llvm/Transforms/Scalar/EarlyCSE.h"
 #include "llvm/Transforms/Scalar/SROA.h"
 #include "llvm/Transforms/Utils/ModuleUtils.h"
+#include "llvm/Transforms/Utils/Local.h"
+#include "llvm/Transforms/Utils/BasicBlockUtils.h"
 #include <map>
 #include <string>
 
@@ -811,6 +813,37 @@ int main(int argc, char **argv) {
     FPM.addPass(EarlyCSEPass());
     MPM.addPass(createModuleToFunctionPassAdaptor(std::move(FPM)));
     MPM.run(*M, MAM);
+    // a helper called with a constant mode argument leaves branches on constants behind: fold exactly those (no other
+    // restructuring of the control flow) and drop the blocks that became unreachable, then clean up once more
+    for (Function &F : *M) {
+      if (F.isDeclaration())
+        continue;
+      bool Changed = false;
+      std::vector<BasicBlock *> Blocks;
+      for (BasicBlock &BB : F)
+        Blocks.push_back(&BB);
+      for (BasicBlock *BB : Blocks)
+        Changed |= ConstantFoldTerminator(BB, /*DeleteDeadConditions=*/true);
+      if (Changed)
+        removeUnreachableBlocks(F);
+    }
+    {
+      PassBuilder PB2;
+      LoopAnalysisManager LAM2;
+      FunctionAnalysisManager FAM2;
+      CGSCCAnalysisManager CGAM2;
+      ModuleAnalysisManager MAM2;
+      PB2.registerModuleAnalyses(MAM2);
+      PB2.registerCGSCCAnalyses(CGAM2);
+      PB2.registerFunctionAnalyses(FAM2);
+      PB2.registerLoopAnalyses(LAM2);
+      PB2.crossRegisterProxies(LAM2, FAM2, CGAM2, MAM2);
+      ModulePassManager MPM2;
+      FunctionPassManager FPM2;
+      FPM2.addPass(EarlyCSEPass());
+      MPM2.addPass(createModuleToFunctionPassAdaptor(std::move(FPM2)));
+      MPM2.run(*M, MAM2);
+    }
   }
   std::error_code EC;
   raw_fd_ostream Out(Pos[1], EC);
